@@ -281,6 +281,9 @@ def gen_attr_call(draw, G, space, rank, env_vars):
     return gen_call(draw, t, params, env_vars)
 
 
+ITEM_REF_READS = [False]    # switch (set by C02): formulas may read a returned reference off an instance
+
+
 def gen_item_call(draw, G, space, rank, env_vars):
     """P(args).c<j>(args) for a parametrised space P nameable from ``space``"""
     cands = []
@@ -300,6 +303,9 @@ def gen_item_call(draw, G, space, rank, env_vars):
     if style == "[]" and not pargs:
         style = "()"
     item = ["call", e, pargs, style]
+    if ITEM_REF_READS[0] and (sp.formula.get("ret") or {}).get("refs") and draw(st.integers(0, 2)) == 0:
+        # the reference the parameter formula returned, read off the instance
+        return ["attr", item, "k0"]
     n, params = draw(st.sampled_from(cs))
     return gen_call(draw, ["attr", item, n], params, env_vars)
 
